@@ -576,6 +576,29 @@ def p_vectors(ctx):
             ok = ok and (seen == ['AXES'] if axes is not None else seen == [])
         ctx.ob('P-VECTORS', loc, '%s: every atom gets its reference set%s' % (tag, ', each vector rotated into the system frame by the checked axes matrix (p\' = T·p)' if axes is not None else ' unchanged'), bool(ok),
                node=fn, key='p_vectors ' + tag)
+    # build_p_vectors from a reference system: one set per atom, also when the atoms have different numbers of neighbours (Ca and F in fluorite, a free surface)
+    bfn = ctx.fn(ST, 'Strain.build_p_vectors')
+    for tag, coord in (('equal coordination (4, 4)', (4, 4)), ('unequal coordination (4 and 2 neighbours)', (4, 2))):
+        sets = [symarray('d%d_' % i, (coord[i], 3), real=True) for i in range(2)]
+
+        class Base(PyStub):
+            natoms = 2
+
+            def dvect(self, i, js):
+                return sets[int(i)].copy()
+        nl = [list(range(coord[0])), list(range(coord[1]))]
+        obj = SymObj(cls, {}, 'self')
+        ev = SymEval(module_aliases(ctx.mod(ST)))
+        try:
+            r = [q for q in ev.run_fn(bfn, [obj, Base()], {'neighbors': nl}) if q.done == 'return']
+            why = ''
+        except WouldRaise as e:
+            r, why = [], str(e)[:200]
+        except Opaque as e:
+            raise AnalysisError('Strain.build_p_vectors (%s): %s' % (tag, e))
+        got = obj.attrs.get('_Strain__p_vectors')
+        ok = len(r) == 1 and got is not None and len(got) == 2 and all(np.shape(got[i]) == (coord[i], 3) and equal(np.asarray(got[i], dtype=object), sets[i], deep=False) for i in range(2))
+        ctx.ob('P-VECTORS', ST + '::Strain.build_p_vectors', '%s: every atom gets the separations to its own neighbours in the reference system as its reference set' % tag, bool(ok), why, node=bfn, key='build ' + tag)
     # the legacy function applies the same rotation
     nfn = ctx.fn(NY, 'nye_tensor')
     rot = [s_ for s_ in nfn.body if isinstance(s_, ast.If) and norm(s_.test).replace(' ', '') == 'axesisnotNone']
